@@ -9337,7 +9337,8 @@ class TensorDictBase(MutableMapping):
         return self.sub_(other)
 
     def __rsub__(self, other: TensorDictBase | torch.Tensor) -> T:
-        return self.sub(other)
+        # other - self
+        return self.neg().add(other)
 
     def __pow__(self, other: TensorDictBase | torch.Tensor) -> T:
         return self.pow(other)
